@@ -98,6 +98,8 @@ type ServerNode struct {
 	Inc   int
 	Born  time.Time
 	Model *ServerModel
+	// LastBody is the (shortened) body of the last statistics reply.
+	LastBody string
 }
 
 // installHooks points the process-global seams at the current world.
@@ -270,8 +272,8 @@ func (n *ServerNode) Request(method, target string, body []byte) *HTTPResult {
 }
 
 // RequestAsync starts an inbound http request as a task without driving it.
-func (n *ServerNode) RequestAsync(method, target string, body []byte, res *HTTPResult) *Task {
-	return n.W.Go(method+target+"@"+n.Name, func() {
+func (n *ServerNode) RequestAsync(label, method, target string, body []byte, res *HTTPResult) *Task {
+	return n.W.Go(label+":"+method+target+"@"+n.Name, func() {
 		defer func() {
 			if r := recover(); r != nil {
 				buf := make([]byte, 16<<10)
